@@ -186,22 +186,26 @@ class Sel:
             j = q.join(lib[name], {"inner": P.enums.JoinType.inner, "left": P.enums.JoinType.left, "cross": P.enums.JoinType.cross}[kind])
             q = j.cross() if kind == "cross" else j.on(on.lib(lib))
         sel = []
+        aliased = {}        # a select item reused as GROUP BY / ORDER BY key is handed over as the same aliased term (as a user does)
         for e, al in self.items:
             x = e.lib(lib)
             sel.append(x.as_(al) if al else x)
+            if al:
+                aliased[id(e)] = (e, al)
+        key_term = lambda e: e.lib(lib).as_(aliased[id(e)][1]) if id(e) in aliased else e.lib(lib)  # noqa
         q = q.select(*sel)
         if self.distinct:
             q = q.distinct()
         if self.where is not None:
             q = q.where(self.where.lib(lib))
         if self.groupby:
-            q = q.groupby(*[e.lib(lib) for e in self.groupby])
+            q = q.groupby(*[key_term(e) for e in self.groupby])
         if self.having is not None:
             q = q.having(self.having.lib(lib))
         for op, other in self.setops:
             q = getattr(q, op)(other.lib())
         for e, desc in self.orderby:
-            q = q.orderby(e.lib(lib), order=P.enums.Order.desc if desc else P.enums.Order.asc)
+            q = q.orderby(key_term(e), order=P.enums.Order.desc if desc else P.enums.Order.asc)
         if self.limit is not None:
             q = q.limit(self.limit)
         if self.offset is not None:
@@ -525,6 +529,16 @@ def shape_programs():
             s = one("a")
             s.setops = [(o1, one("b")), (o2, one("a"))]
             out.append(("shape:setop-chain", s))
+    # ORDER BY a selected, aliased expression (written by its alias), in both directions, with and without LIMIT
+    for desc in (True, False):
+        for lim in (None, 2):
+            s = Sel()
+            s.sources = [("t", P.Table("t"), None)]
+            k1, k2 = E("+", C("a"), I(1)), C("b")
+            s.items = [(k1, "k"), (k2, "b0"), (C("c"), "c0")]
+            s.orderby = [(k1, desc), (k2, not desc), (C("c"), False)]
+            s.limit = lim
+            out.append(("shape:orderby-selected-alias", s))
     # window functions ordered by several keys of one direction (ties on the first key make the later keys matter)
     for fnname, arg in (("ROW_NUMBER", None), ("RANK", None), ("SUM", C("b"))):
         for desc in (True, False):
